@@ -6,7 +6,10 @@ import io
 import itertools
 import json
 import os
+import re
 import shutil
+import subprocess
+import sys
 import tempfile
 
 import fw
@@ -36,7 +39,10 @@ ASSUMPTIONS = [
 TRUSTED = ['the tree renderer of harness/props/C17.py (abstract include tree -> BareScript texts + virtual file system)',
            'the program renderer rx_render and the reference rx_expected of the reexec stream (abstract program with loops, jumps, functions and '
            'versioned locations -> BareScript texts; the property statement unrolled along the control flow). The Lean include machine has no '
-           'loops (theorem include_fetch_order covers every execution of an include statement; re-execution is tied on the implementation side only)']
+           'loops (theorem include_fetch_order covers every execution of an include statement; re-execution is tied on the implementation side only)',
+           'the world / command-line renderer (mc_render, McGen) and the script-by-script reference of the mcli stream, the session driver of the '
+           'reuse stream: each script / run is one run of the Lean include machine, but the command line (argparse, working directory, several '
+           'main() calls in one process) and the options dict shared between runs are host-only and tied on the implementation side only']
 
 CORPUS = os.path.join(fw.VERIF, 'harness', 'corpus', 'C17.jsonl')
 BIG = 100000
@@ -669,15 +675,34 @@ def stream_include(ctx, corpus_cases):
 # cli stream: bare.main() over real files in a temporary directory, with packaged includes
 # ---------------------------------------------------------------------------------------------------------------------
 
+def _cwd():
+    """The working directory of this process - a safe one if the implementation left the process in a directory that is gone."""
+    try:
+        return os.getcwd()
+    except OSError:
+        os.chdir(fw.VERIF)
+        return fw.VERIF
+
+
 def run_cli(argv):
+    """bare.main(argv) -> (stdout lines, exit status); the working directory of the process is the caller's again afterwards"""
     bare = fw.impl()['bare']
     out = io.StringIO()
     code = None
-    with contextlib.redirect_stdout(out):
+    cwd = _cwd()
+    try:
+        with contextlib.redirect_stdout(out):
+            try:
+                bare.main(argv)
+            except SystemExit as exc:
+                code = exc.code
+    finally:
         try:
-            bare.main(argv)
-        except SystemExit as exc:
-            code = exc.code
+            moved = os.getcwd() != cwd
+        except OSError:
+            moved = True
+        if moved:
+            os.chdir(cwd)
     return out.getvalue().splitlines(), code
 
 
@@ -689,7 +714,7 @@ def cli_tree(rng, tmp, relative_invocation):
     g.cycle = False
     g.max_statements = BIG
     main = os.path.join(tmp, 'a', 'b', 'c', 'proj', 'main.bare')      # deep enough for three levels of '../'
-    g.root_loc = os.path.relpath(main, os.getcwd()) if relative_invocation else main
+    g.root_loc = os.path.relpath(main, _cwd()) if relative_invocation else main
     for name in ('args.bare', 'unittest.bare', 'pager.bare'):
         g.files[g.prefix + name] = {'kind': 'text', 'items': [], 'text': None, 'packaged': True}
     g.files[g.prefix + 'nosuch.bare'] = {'kind': 'missing'}
@@ -745,7 +770,7 @@ def cli_hand(tmp):
     for relative in (False, True):
         path = os.path.join(proj, 'main.bare')
         if relative:
-            path = os.path.relpath(path, os.getcwd())
+            path = os.path.relpath(path, _cwd())
         lines, code = run_cli([path])
         # the packaged args.bare defines argsParse in the global scope of the run; b.bare is reached along three different chains
         out.append((f'tree{"-relative" if relative else ""}',
@@ -1411,14 +1436,841 @@ def stream_reexec(ctx):
 
 
 # ---------------------------------------------------------------------------------------------------------------------
+# mcli stream: bare.main() with SEVERAL scripts on one command line (script files in different directories, inline -c
+# scripts, system includes, -v / -d / -s / -m options, in every order argparse accepts), many command lines in one process,
+# started from different working directories of the same tree
+# ---------------------------------------------------------------------------------------------------------------------
+#
+# A *world* is a small real directory tree (placeholder root '@ROOT@', working directory '@ROOT@/cwd') in which the SAME
+# file names exist in every directory with different content: every text logs tags naming its own real location, so a
+# reference resolved against the wrong base shows in stdout (another file answers, or the include fails).
+# Texts of level k include only texts of a higher level (main/inline < u0 < u1 < u2 < args.bare): every tree is finite.
+# The reference is the property statement, script by script: every script of the command line is a tree of its own - a
+# script FILE resolves its includes against the path it was given on the command line, an inline script is contained in
+# no file, so its include paths are used unchanged (i.e. relative to the working directory) - whatever ran before it on
+# the same command line or earlier in the same process. Items: the simple items of the include stream ('nop' | 'ret' |
+# {'stmt': tag[, 'v': true]} | {'inc': entries[, 'fn': name]}), so every script is also one run of the Lean include machine.
+
+MC_ROOT = '@ROOT@'
+MC_DIRS = ['.', 'app', 'app/sub', 'lib', '..', '../other', '../other/deep']
+MC_LEVELS = {'u0.bare': 0, 'u1.bare': 1, 'u2.bare': 2, 'args.bare': 3}
+MC_MAINS = ['main.bare', 'm2.bare']
+MC_SYSTEM = ['diff.bare', 'args.bare', 'unittest.bare']           # packaged includes that log nothing when included
+MC_PREFIX = ':bare-include:' + os.sep
+MC_V = ['-v', 'cfgv', "''"]
+MC_BOOT = 'import sys\nsys.path.insert(0, sys.argv[1])\nsys.argv = ["bare"] + sys.argv[2:]\nfrom bare_script.bare import main\nmain()\n'
+MC_INLINE_NAME = re.compile(r'^-c \d+:$')
+MC_BOOT_SEQ = """
+import contextlib, io, json, os, sys
+sys.path.insert(0, sys.argv[1])
+from bare_script.bare import main
+last = None
+for wd, argv in json.load(sys.stdin):
+    os.chdir(wd)
+    out, code = io.StringIO(), None
+    with contextlib.redirect_stdout(out), contextlib.redirect_stderr(io.StringIO()):
+        try:
+            main(argv)
+        except SystemExit as exc:
+            code = exc.code
+    last = [out.getvalue().splitlines(), code]
+json.dump(last, sys.stdout)
+"""
+
+
+def mc_abs(d, root=MC_ROOT):
+    """Directory d (relative to the working directory of the world) as a normalised absolute path."""
+    return os.path.normpath(root + '/cwd/' + d)
+
+
+def mc_key(path, root=MC_ROOT):
+    """normalised absolute path -> key of the world's file map (the path below the root); None outside the world"""
+    return path[len(root) + 1:] if path.startswith(root + '/') else None
+
+
+def mc_bind(obj, root, frm=MC_ROOT):
+    """The same object with the root placeholder replaced (in every string)."""
+    return json.loads(json.dumps(obj).replace(json.dumps(frm)[1:-1], json.dumps(root)[1:-1]))
+
+
+def mc_lookup(world, root, loc, wd='.'):
+    """What the location holds: packaged system include, a file of the world (lexical normalisation: every directory that
+    occurs in a reference exists), or nothing."""
+    if loc.startswith(MC_PREFIX):
+        return {'kind': 'text', 'items': [], 'packaged': True} if loc[len(MC_PREFIX):] in MC_SYSTEM else None
+    key = mc_key(os.path.normpath(os.path.join(mc_abs(wd, root), loc)), root)
+    return world['files'].get(key) if key else None
+
+
+def mc_render(items, root_script=False):
+    lines = []
+    for idx, it in enumerate(items):
+        if it == 'nop':
+            lines.append(f'unused{idx} = {idx}')
+        elif it == 'ret':
+            lines.append('return' if root_script else 'return 3')     # the value of an included script's return is nobody's exit status
+        elif 'stmt' in it:
+            tag = it['stmt']
+            if tag.startswith('L'):
+                lines.append(f"systemLog('{tag}'" + (' + cfgv' if it.get('v') else '') + ')')
+            else:
+                lines.append(f"trace = trace + '{tag};'")
+        else:
+            inc = ['include ' + quote_url(ref, system) for ref, system in it['inc']]
+            if it.get('fn'):
+                lines += [f'function {it["fn"]}():'] + ['    ' + ln for ln in inc] + ['endfunction', f'{it["fn"]}()']
+            else:
+                lines += inc
+    return lines
+
+
+def mc_wrap(lines):
+    return "trace = ''\n" + '\n'.join(lines) + "\nsystemLog('T=' + trace)\n"
+
+
+class McGen:
+    """Random worlds and command lines (placeholder root)."""
+
+    def __init__(self, rng):
+        self.rng = rng
+        self.n = 0
+        self.uses_v = rng.random() < 0.5
+
+    def ref(self, d, names):
+        rng = self.rng
+        if not names or rng.random() < 0.08:
+            return [rng.choice(['diff.bare'] * 8 + ['args.bare'] * 3 + ['unittest.bare'] * 2 + ['nosuch.bare']), True]
+        name = rng.choice(names)
+        if rng.random() < 0.88:
+            t = rng.choice(MC_DIRS)                                   # aimed at a directory of the world
+            if rng.random() < 0.15:
+                return [mc_abs(t) + '/' + name, False]
+            rel = os.path.relpath(mc_abs(t, '/R'), mc_abs(d, '/R'))
+            ref = name if rel == '.' else rel + '/' + name
+            return ['./' + ref if rng.random() < 0.15 else ref, False]
+        # a spelling that means different files (or none) from different places
+        return [rng.choice(['', '', '', 'sub/', '../', 'lib/', 'app/', '../lib/', 'deep/', '../other/', './', 'app/sub/', 'cwd/']) + name, False]
+
+    def items(self, d, level, tag):
+        rng = self.rng
+        names = [n for n, lv in MC_LEVELS.items() if lv > level]
+        out = [{'stmt': f'L{tag}.a'}]
+        if self.uses_v and rng.random() < 0.4:
+            out[0]['v'] = True
+        n_slots = rng.randint(1, 4) if level < 0 else rng.randint(0, 3) if level < 3 else rng.randint(0, 1)
+        for i in range(n_slots):
+            r = rng.random()
+            if r < (0.55 if level < 3 else 0.2):
+                self.n += 1
+                it = {'inc': [self.ref(d, names) for _ in range(rng.choice([1, 1, 1, 2]))]}
+                if rng.random() < 0.2:
+                    it['fn'] = f'incFn{self.n}'
+                out.append(it)
+            elif r < 0.8:
+                out.append({'stmt': f'S{tag}.{i}'})
+            elif r < 0.9:
+                out.append({'stmt': f'L{tag}.{i}'})
+            elif r < 0.95:
+                out.append('nop')
+            else:
+                out.append('ret')
+        if level < 0 and not any(isinstance(it, dict) and 'inc' in it for it in out):
+            out.insert(1, {'inc': [self.ref(d, names)]})              # a script of the command line includes something
+        out.append({'stmt': f'L{tag}.z'})
+        return out
+
+    def world(self):
+        rng = self.rng
+        files = {}
+        for d in MC_DIRS:
+            for name, level in MC_LEVELS.items():
+                key = mc_key(mc_abs(d) + '/' + name)
+                r = rng.random()
+                if r < 0.95:
+                    items = self.items(d, level, key)
+                    files[key] = {'kind': 'text', 'items': items, 'text': '\n'.join(mc_render(items)) + '\n'}
+                elif r < 0.97:
+                    files[key] = {'kind': 'broken', 'text': f"systemLog('Lnever')\n{rng.choice(BROKEN_LINES)}\n"}
+            for name in MC_MAINS:
+                if rng.random() < 0.85:
+                    key = mc_key(mc_abs(d) + '/' + name)
+                    items = self.items(d, -1, key)
+                    files[key] = {'kind': 'text', 'items': items, 'text': mc_wrap(mc_render(items, True)), 'main': [d, name]}
+        if not any(f.get('main') for f in files.values()):
+            items = self.items('app', -1, 'cwd/app/main.bare')
+            files['cwd/app/main.bare'] = {'kind': 'text', 'items': items, 'text': mc_wrap(mc_render(items, True)), 'main': ['app', 'main.bare']}
+        return {'files': files, 'v': self.uses_v}
+
+    def script_file(self, world, wd):
+        rng = self.rng
+        key = rng.choice(sorted(k for k, f in world['files'].items() if f.get('main')))
+        d, name = world['files'][key]['main']
+        rel = os.path.relpath(mc_abs(d, '/R') + '/' + name, mc_abs(wd, '/R'))        # as typed in the working directory wd
+        forms = [rel] * 5 + [mc_abs(d) + '/' + name] * 2 + ['./' + rel]
+        if wd == '.':
+            forms.append(('app/../' if d == '.' else 'lib/../') + rel)
+            if d != '.':
+                forms.append(d + '//' + name)
+        return {'path': rng.choice(forms), 'key': key}
+
+    def script_code(self, wd):
+        self.n += 1
+        items = self.items(wd, -1, f'c{self.n}')
+        return {'code': {'items': items, 'text': mc_wrap(mc_render(items, True))}, 'flag': self.rng.choice(['-c', '-c', '--code'])}
+
+    def cmdline(self, world):
+        """-> {'wd': working directory (relative to <root>/cwd), 'groups': [{'code': …, 'flag': …} | {'files': […]} | {'opt': […]}]};
+        argparse takes the script files as ONE contiguous group"""
+        rng = self.rng
+        wd = rng.choice(['.', '.', '.', 'app', '../other'])
+        while True:
+            n_pre, n_files, n_post = rng.choice([0, 0, 1, 1, 2]), rng.choice([0, 1, 1, 2, 2, 3]), rng.choice([0, 0, 1, 1, 2])
+            total = n_pre + n_files + n_post
+            if total >= 2 or (total == 1 and rng.random() < 0.15):
+                break
+        groups = [self.script_code(wd) for _ in range(n_pre)]
+        if n_files:
+            groups.append({'files': [self.script_file(world, wd) for _ in range(n_files)]})
+        groups += [self.script_code(wd) for _ in range(n_post)]
+        opts = []
+        if world['v']:
+            opts.append({'opt': list(MC_V), 'needed': True})
+        if rng.random() < 0.25:
+            opts.append({'opt': ['-v', 'other', rng.choice(['1 + 1', "'x'", 'null'])]})
+        if rng.random() < 0.08:
+            opts.append({'opt': [rng.choice(['-d', '--debug'])]})
+        if rng.random() < 0.06:
+            opts.append({'opt': [rng.choice(['-s', '--static'])]})
+        if rng.random() < 0.05:
+            opts.append({'opt': [rng.choice(['-m', '--markdown-up'])]})
+        for o in opts:
+            groups.insert(rng.randint(0, len(groups)), o)
+        return {'wd': wd, 'groups': groups}
+
+
+def mc_argv(groups):
+    argv = []
+    for g in groups:
+        if 'code' in g:
+            argv += [g['flag'], g['code']['text']]
+        elif 'files' in g:
+            argv += [f['path'] for f in g['files']]
+        else:
+            argv += g['opt']
+    return argv
+
+
+def mc_scripts(groups):
+    out = []
+    for g in groups:
+        if 'code' in g:
+            out.append({'type': 'code', 'items': g['code']['items']})
+        elif 'files' in g:
+            out += [{'type': 'file', 'path': f['path'], 'key': f['key']} for f in g['files']]
+    return out
+
+
+def mc_flag(groups, *names):
+    return any('opt' in g and g['opt'][0] in names for g in groups)
+
+
+def mc_script_items(world, script):
+    return world['files'][script['key']]['items'] if script['type'] == 'file' else script['items']
+
+
+def mc_script_case(world, root, script, wd='.'):
+    """One script of a command line as a case of the include stream: its items, its own location (none for an inline
+    script) and the map resolved location -> text of everything its tree can reach (the property's reading)."""
+    loc = script['path'] if script['type'] == 'file' else None
+    items = mc_script_items(world, script)
+    files = {}
+    todo = [(loc, items)]
+    while todo:
+        self_loc, its = todo.pop()
+        for it in its:
+            if isinstance(it, dict) and 'inc' in it:
+                for url, system in it['inc']:
+                    u = spec_location(MC_PREFIX, self_loc, url, system)
+                    if u in files:
+                        continue
+                    f = mc_lookup(world, root, u, wd)
+                    if f is None:
+                        files[u] = {'kind': 'missing'}
+                    elif f['kind'] == 'broken':
+                        files[u] = {'kind': 'broken'}
+                    else:
+                        files[u] = {'kind': 'text', 'items': f['items']}
+                        todo.append((u, f['items']))
+    return {'files': files, 'root': {'items': items}, 'urlFn': loc, 'systemPrefix': MC_PREFIX, 'maxStatements': BIG, 'fetch': True, 'acyclic': True}
+
+
+def mc_spec_result(case):
+    logs, tags, outcome = [], [], {'kind': '?'}
+    for ev in spec_events(case):
+        if ev[0] == 'end':
+            outcome = ev[1]
+            break
+        if ev[0] == 'exec':
+            (logs if ev[1].startswith('L') else tags).append(ev[1])
+    return logs, ''.join(t + ';' for t in tags), outcome
+
+
+def mc_model_result(resp):
+    if 'log' not in resp:
+        return [], '', {'kind': 'bad', 'resp': resp}
+    logs, trace = split_tags(resp['log'])
+    return logs, trace, resp['outcome']
+
+
+def mc_lines(world, groups, results):
+    """Per-script results (log tags, trace, outcome) -> (stdout lines, exit status, only a prefix of stdout is prescribed?)"""
+    if mc_flag(groups, '-s', '--static'):
+        return [], None, False                                        # nothing is executed: nothing is fetched, nothing is logged
+    lines = []
+    for script, (logs, trace, outcome) in zip(mc_scripts(groups), results):
+        lines += logs
+        if outcome.get('kind') == 'ok':
+            if 'ret' not in mc_script_items(world, script):
+                lines.append('T=' + trace)
+            continue
+        lines.append((script['path'] if script['type'] == 'file' else '-c #') + ':')
+        if outcome.get('kind') == 'includeFailed':
+            return lines + [f'Include of "{outcome["url"]}" failed'], 1, False
+        return lines + [f'Included from "{outcome.get("url")}"'], 1, True
+    return lines, 0, False
+
+
+def mc_norm(lines):
+    """stdout without the lines of the linter / debug mode (C18's business, wall-clock times); inline script names without their number"""
+    return ['-c #:' if MC_INLINE_NAME.match(ln) else ln for ln in lines if not ln.startswith('BareScript:')]
+
+
+def mc_run(root, argv, wd='.'):
+    """bare.main(argv) in this process, started in the working directory wd of the world"""
+    old = _cwd()
+    os.chdir(mc_abs(wd, root))
+    try:
+        with contextlib.redirect_stderr(io.StringIO()):
+            try:
+                lines, code = run_cli(list(argv))
+            except BaseException as exc:  # pylint: disable=broad-except
+                lines, code = [f'escaped: {type(exc).__name__}: {exc}'], 'exception'
+    finally:
+        os.chdir(old)
+    return mc_norm(lines), code
+
+
+def mc_run_fresh(root, argv, wd='.'):
+    """the same command line in a fresh interpreter process (no state of this process, its own working directory)"""
+    try:
+        res = subprocess.run([sys.executable, '-c', MC_BOOT, os.path.join(fw.REPO, 'src')] + list(argv), cwd=mc_abs(wd, root),
+                             capture_output=True, text=True, timeout=120, check=False, stdin=subprocess.DEVNULL)
+    except subprocess.TimeoutExpired:
+        return ['timeout'], 'timeout'
+    return mc_norm(res.stdout.splitlines()), res.returncode
+
+
+def mc_run_fresh_seq(root, cmds):
+    """Several command lines one after the other in ONE fresh interpreter process -> observation of the last one"""
+    seq = [[mc_abs(cmd['wd'], root), mc_argv(cmd['groups'])] for cmd in cmds]
+    try:
+        res = subprocess.run([sys.executable, '-c', MC_BOOT_SEQ, os.path.join(fw.REPO, 'src')], input=json.dumps(seq), cwd=root,
+                             capture_output=True, text=True, timeout=120, check=False)
+        lines, code = json.loads(res.stdout)
+    except (subprocess.TimeoutExpired, ValueError):
+        return ['no answer'], 'no answer'
+    return mc_norm(lines), code
+
+
+def mc_fails_in_fresh_process(root, cmds, want):
+    lines, code = mc_run_fresh_seq(root, cmds)
+    return {'stdout': lines[:len(want['stdout'])] if want['exit'] == 1 else lines, 'exit': code if want['exit'] is not None else None} != want
+
+
+def mc_materialise(world, root):
+    for d in MC_DIRS:
+        os.makedirs(mc_abs(d, root), exist_ok=True)
+    for key, f in world['files'].items():
+        path = os.path.join(root, key)
+        if not inside(path, root):
+            raise OSError(f'{path} would be written outside {root}')
+        with open(path, 'w', encoding='utf-8', newline='') as fh:
+            fh.write(f['text'])
+
+
+def mc_verdict(world, root, cmd, results=None):
+    """-> (expected, actual, ok?) of one command line over a materialised world (everything bound to the real root)"""
+    groups, wd = cmd['groups'], cmd['wd']
+    if results is None:
+        results = [mc_spec_result(mc_script_case(world, root, s, wd)) for s in mc_scripts(groups)]
+    want_lines, want_exit, cut = mc_lines(world, groups, results)
+    lines, code = mc_run(root, mc_argv(groups), wd)
+    if cut:
+        lines = lines[:len(want_lines)]
+    want = {'stdout': want_lines, 'exit': want_exit}
+    got = {'stdout': lines, 'exit': code if want_exit is not None else None}
+    return want, got, want == got
+
+
+def mc_fresh_obs(root, cmd, want, got):
+    """The command line in a fresh interpreter process, cut like the in-process observation."""
+    flines, fcode = mc_run_fresh(root, mc_argv(cmd['groups']), cmd['wd'])
+    del got
+    return {'stdout': flines[:len(want['stdout'])] if want['exit'] == 1 else flines, 'exit': fcode if want['exit'] is not None else None}
+
+
+def mc_shrink(world, root, cmd):
+    """Fewer scripts / options while the command line still fails (each candidate is a legal command line)."""
+    def fails(gs):
+        return bool(mc_scripts(gs)) and not mc_verdict(world, root, {'wd': cmd['wd'], 'groups': gs})[2]
+    best = cmd['groups']
+    changed = True
+    while changed:
+        changed = False
+        for gi in reversed(range(len(best))):
+            g = best[gi]
+            cands = []
+            if 'files' in g and len(g['files']) > 1:
+                cands = [best[:gi] + [{'files': g['files'][:fi] + g['files'][fi + 1:]}] + best[gi + 1:] for fi in range(len(g['files']))]
+            elif not g.get('needed'):
+                cands = [best[:gi] + best[gi + 1:]]
+            for cand in cands:
+                if fails(cand):
+                    best, changed = cand, True
+                    break
+            if changed:
+                break
+    return {'wd': cmd['wd'], 'groups': best}
+
+
+def mc_slim_world(world, root, cmds):
+    """The world without the files no script of the given command lines can reach."""
+    keep = set()
+    for cmd in cmds:
+        for s in mc_scripts(cmd['groups']):
+            if s['type'] == 'file':
+                keep.add(s['key'])
+            for u in mc_script_case(world, root, s, cmd['wd'])['files']:
+                if not u.startswith(MC_PREFIX):
+                    key = mc_key(os.path.normpath(os.path.join(mc_abs(cmd['wd'], root), u)), root)
+                    if key:
+                        keep.add(key)
+    return {'files': {k: v for k, v in world['files'].items() if k in keep}, 'v': world['v']}
+
+
+def mc_hand():
+    """A hand-made world and eight scripts: script files in the working directory, in sub-directories (relative and absolute),
+    in a sibling of the working directory, and inline scripts whose references mean different files from different places."""
+    files = {}
+
+    def add(d, name, items, main=False):
+        key = mc_key(mc_abs(d) + '/' + name)
+        for it in items:
+            if isinstance(it, dict) and 'stmt' in it:
+                it['stmt'] = it['stmt'].replace('@', key)
+        f = {'kind': 'text', 'items': items, 'text': mc_wrap(mc_render(items, True)) if main else '\n'.join(mc_render(items)) + '\n'}
+        if main:
+            f['main'] = [d, name]
+        files[key] = f
+        return key
+    for d in ('.', 'app', 'lib', '../other'):
+        add(d, 'u2.bare', [{'stmt': 'L@'}])
+        add(d, 'u1.bare', [{'stmt': 'L@.a'}, {'inc': [['u2.bare', False]]}, {'stmt': 'S@'}, 'ret', {'stmt': 'L@.never'}])
+        add(d, 'main.bare', [{'stmt': 'L@.a'}, {'inc': [['u1.bare', False]] + ([['args.bare', True]] if d == 'app' else [])}, {'stmt': 'S@'},
+                             {'inc': [['args.bare', False]]}, {'stmt': 'L@.z'}], main=True)
+    for d in ('.', 'app', '../other'):
+        add(d, 'args.bare', [{'stmt': 'L@ (not the system one)'}])
+    add('.', 'u0.bare', [{'stmt': 'L@ (only here)'}])
+    world = {'files': files, 'v': False}
+
+    def code(tag, *entries):
+        items = [{'stmt': f'L{tag}.a'}] + [{'inc': [list(e)]} for e in entries] + [{'stmt': f'S{tag}'}]
+        return {'code': {'items': items, 'text': mc_wrap(mc_render(items, True))}, 'flag': '-c'}
+    alts = [
+        {'path': 'main.bare', 'key': 'cwd/main.bare'},
+        {'path': 'app/main.bare', 'key': 'cwd/app/main.bare'},
+        {'path': mc_abs('app') + '/main.bare', 'key': 'cwd/app/main.bare'},
+        {'path': '../other/main.bare', 'key': 'other/main.bare'},
+        {'path': './lib/main.bare', 'key': 'cwd/lib/main.bare'},                 # lib has no local args.bare: that script fails there
+        code('cA', ('u1.bare', False)),
+        code('cB', ('app/u2.bare', False), ('args.bare', True), ('args.bare', False)),
+        code('cC', ('u0.bare', False), ('lib/u1.bare', False)),
+    ]
+    return world, alts
+
+
+def mc_hand_cmdlines(alts, max_len):
+    """EVERY order of up to max_len of the alternatives that argparse accepts (the script files are one contiguous group)."""
+    out = []
+    for n in range(1, max_len + 1):
+        for seq in itertools.product(range(len(alts)), repeat=n):
+            groups = []
+            file_groups = 0
+            for ai in seq:
+                a = alts[ai]
+                if 'code' in a:
+                    groups.append(a)
+                elif groups and 'files' in groups[-1]:
+                    groups[-1]['files'].append(a)
+                else:
+                    groups.append({'files': [a]})
+                    file_groups += 1
+            if file_groups <= 1:
+                out.append({'wd': '.', 'groups': json.loads(json.dumps(groups))})
+    return out
+
+
+def stream_mcli(ctx):
+    st = ctx.stream('mcli', 'bare.main(argv) with SEVERAL scripts on one command line, many command lines one after the other in this process, started '
+                            'in different working directories of the same tree: script files in the working directory / sub-directories / a sibling '
+                            'directory (relative, ./, dir/../, doubled slash and absolute spellings), inline -c/--code scripts before and after the '
+                            'files, `include <...>` of packaged includes next to local files of the same name, -v / -d / -s / -m at every legal '
+                            'position; the same file names exist in every directory with different content. Hand world: EVERY order of up to 3 '
+                            '(quick) / 4 (thorough) scripts out of eight; random worlds x 12 command lines. Oracles: stdout and exit status = the '
+                            'property read script by script (a file resolves against the path it was given, an inline script uses its paths '
+                            'unchanged, nothing depends on what ran before) [cli-multi]; a sample re-run in a fresh interpreter process gives '
+                            'the same answer [cli-fresh-process]. Every script is also one run of the Lean include machine (compared); the '
+                            'command line itself (argparse, working directory, process state) is host-only: implementation-side oracle. '
+                            'non-trivial = at least two scripts on the command line and at least one include executed')
+    rng = ctx.rng('mcli')
+    tmp = tempfile.mkdtemp(prefix='verif_c17m_', dir=os.environ.get('VERIF_TMP') or None)
+    try:
+        hand_world, alts = mc_hand()
+        hand_cmds = mc_hand_cmdlines(alts, ctx.scale(3, 4))
+        worlds = [(hand_world, [('hand', c) for c in hand_cmds])]
+        for _ in range(ctx.scale(40, 600)):
+            gen = McGen(rng)
+            world = gen.world()
+            worlds.append((world, [('random', gen.cmdline(world)) for _ in range(12)]))
+        jobs = []                                                     # (origin, root, bound world, bound command line, placeholder one, world index)
+        for wi, (world, cmds) in enumerate(worlds):
+            root = os.path.join(tmp, f'w{wi}')
+            bworld = mc_bind(world, root)
+            try:
+                mc_materialise(bworld, root)
+            except OSError as exc:
+                ctx.notes.append(f'mcli: could not materialise a world: {exc}')
+                continue
+            jobs += [(origin, root, bworld, mc_bind(cmd, root), cmd, wi) for origin, cmd in cmds]
+        cases = [[mc_script_case(bworld, root, s, bcmd['wd']) for s in mc_scripts(bcmd['groups'])] for _, root, bworld, bcmd, _, _ in jobs]
+        resps = iter(ctx.driver.batch([model_request(c) for cs in cases for c in cs]))
+        n_fresh = ctx.scale(5, 150)
+        fresh_hand = set(rng.sample(range(len(hand_cmds)), min(ctx.scale(3, 40), len(hand_cmds))))
+        reported = unrecorded = fresh_reported = 0
+        history = {}
+        for ji, ((origin, root, bworld, bcmd, cmd, wi), cs) in enumerate(zip(jobs, cases)):
+            mresps = [next(resps) for _ in cs]
+            want, got, ok = mc_verdict(bworld, root, bcmd, [mc_spec_result(c) for c in cs])
+            groups = cmd['groups']
+            scripts = mc_scripts(bcmd['groups'])
+            label = ['wd=' + cmd['wd']] + mc_argv(groups)
+            n_inc = sum(1 for r in mresps for e in r.get('events', []) if e[0] == 'fetch')
+            static = mc_flag(groups, '-s', '--static')
+            kinds = ''.join('F' if s['type'] == 'file' else 'C' for s in scripts)
+            tags = [origin, 'wd:' + cmd['wd'], 'scripts:' + (kinds if len(kinds) <= 3 else kinds[:3] + '+'), 'exit:' + str(want['exit'])]
+            tags += [t for t, names in (('opt:-v', ('-v',)), ('opt:-d', ('-d', '--debug')), ('opt:-s', ('-s', '--static')), ('opt:-m', ('-m', '--markdown-up')))
+                     if mc_flag(groups, *names)]
+            if 'FC' in kinds:
+                tags.append('inline-after-file')
+            if len({bworld['files'][s['key']]['main'][0] for s in scripts if s['type'] == 'file'}) > 1:
+                tags.append('files-in-different-directories')
+            if any(s['type'] == 'file' and os.path.isabs(s['path']) for s in scripts):
+                tags.append('absolute-script-path')
+            if want['exit'] == 1:
+                first_bad = next(i for i, c in enumerate(cs) if mc_spec_result(c)[2].get('kind') != 'ok')
+                tags.append(origin + '/failing-script:' + ('first' if first_bad == 0 else 'later'))
+            st.case(label, nontrivial=len(scripts) >= 2 and n_inc > 0 and not static, tags=tags)
+            # correspondence: every script is one run of the Lean machine
+            mlines, mexit, _ = mc_lines(bworld, bcmd['groups'], [mc_model_result(r) for r in mresps])
+            ctx.compare('mcli', label, got, {'stdout': mlines, 'exit': mexit})
+            for r in mresps:
+                if 'specEvents' in r and (r['events'] != r['specEvents'] or r['outcome'] != r['specOutcome']):
+                    ctx.disagree('mcli', label, {'events': r['events'], 'outcome': r['outcome']},
+                                 {'events': r['specEvents'], 'outcome': r['specOutcome']}, note='Lean mirror vs Lean spec (theorem run_spec)')
+            before = history.setdefault(wi, [])
+            if not ok and reported < 8 and reported + unrecorded < 20:
+                small = mc_shrink(bworld, root, bcmd)
+                want2, got2, ok2 = mc_verdict(bworld, root, small)
+                if ok2:
+                    small = bcmd
+                else:
+                    want, got = want2, got2
+                # does it fail on its own (first thing in a fresh process), after the earlier command lines of this world (verified in ONE
+                # fresh process), or only after something that ran in another world of this run (not recorded: a replay will not fail)?
+                hist, note = [], 'not needed'
+                if not mc_fails_in_fresh_process(root, [small], want):
+                    hist, note = before[-6:], 'the command lines under "before" ran first in the same process'
+                    if not hist or not mc_fails_in_fresh_process(root, hist + [small], want):
+                        hist, note = [], 'needed (a fresh process gives the expected answer) but it lies in other worlds of this run: not recorded'
+                if 'not recorded' in note:
+                    unrecorded += 1
+                else:
+                    reported += 1
+                if 'not recorded' not in note or unrecorded <= 6:
+                    inp = {'world': mc_slim_world(bworld, root, [small] + hist), 'cmd': small, 'before': hist, 'argv': mc_argv(small['groups']),
+                           'history': note}
+                    ctx.witness('cli-multi', mc_bind(inp, MC_ROOT, frm=root), want, got)
+            elif ok and len(scripts) >= 2 and fresh_reported < 4 and (
+                    (origin == 'hand' and ji in fresh_hand) or (origin == 'random' and n_fresh > 0 and ji % 7 == 0)):
+                if origin == 'random':
+                    n_fresh -= 1
+                fgot = mc_fresh_obs(root, bcmd, want, got)
+                st.case(['fresh-process'] + label, nontrivial=True, tags=['fresh-process'])
+                if fgot != got:
+                    fresh_reported += 1
+                    inp = {'world': mc_slim_world(bworld, root, [bcmd]), 'cmd': bcmd, 'before': [], 'argv': mc_argv(bcmd['groups'])}
+                    ctx.witness('cli-fresh-process', mc_bind(inp, MC_ROOT, frm=root), {'in a fresh process': fgot}, {'in this process': got})
+            before.append(bcmd)
+    finally:
+        shutil.rmtree(tmp, ignore_errors=True)
+
+
+def _replay_mcli(inp, oracle):
+    tmp = tempfile.mkdtemp(prefix='verif_c17m_replay_', dir=os.environ.get('VERIF_TMP') or None)
+    try:
+        root = os.path.join(tmp, 'w')
+        b = mc_bind({'world': inp['world'], 'cmd': inp['cmd'], 'before': inp.get('before') or []}, root)
+        mc_materialise(b['world'], root)
+        for cmd in b['before']:
+            mc_run(root, mc_argv(cmd['groups']), cmd['wd'])
+        want, got, ok = mc_verdict(b['world'], root, b['cmd'])
+        if oracle == 'cli-multi':
+            return not ok
+        return mc_fresh_obs(root, b['cmd'], want, got) != got
+    finally:
+        shutil.rmtree(tmp, ignore_errors=True)
+
+
+# ---------------------------------------------------------------------------------------------------------------------
+# reuse stream: several execute_script runs that share ONE options dict (and one globals dict); some of the runs fail
+# ---------------------------------------------------------------------------------------------------------------------
+#
+# A host that keeps its options object between runs changes, between two runs, only what the next script needs (its
+# location -> 'urlFn', the system prefix, the budget, the fetcher). Every run is a tree of its own: what it fetches, runs
+# and reports is prescribed by the property for THAT script alone - the same as with fresh options - whatever the earlier
+# runs did (completed, failed inside a nested include, ran out of budget). The random trees of the include stream re-use
+# the same location names with different content from run to run.
+
+REUSE_JUNK = {'urlFn': 'junk', 'fetchFn': 'junk', 'systemPrefix': '/junk/prefix/', 'url': 'junk.bare', 'include': 1, 'options': None,
+              'globals': 2, 'statementCount': -5, 'maxStatements': 1, 'script': 'junk', 'file': '/junk/file.bare'}
+REUSE_KEPT = ('urlFn', 'systemPrefix', 'fetchFn', 'globals', 'logFn')
+
+
+class _StrSub(str):
+    """a host string type (subclass of str)"""
+
+
+def reuse_session(rng):
+    runs = []
+    for _ in range(rng.choice([2, 2, 3, 3, 4, 5])):
+        g = TreeGen(rng, max_depth=3)
+        if runs and rng.random() < 0.5:
+            g.root_loc = runs[-1]['urlFn']                            # the host has no reason to touch 'urlFn'
+        if runs and rng.random() < 0.5:
+            g.prefix = runs[-1]['systemPrefix']
+        if rng.random() < 0.35:
+            g.p_fail = max(g.p_fail, 0.2)                             # fault, then continue
+        runs.append(_slim(g.build()))
+    return {'kind': 'reuse', 'runs': runs, 'style': rng.choice(['minimal', 'minimal', 'full']), 'none_as': rng.choice(['absent', 'none']),
+            'junk': rng.random() < 0.3, 'debug': rng.random() < 0.25, 'strsub': rng.random() < 0.15}
+
+
+def reuse_hand():
+    def case(root_loc, prefix, root_items, files, max_statements=BIG):
+        fs = {}
+        for loc, f in files.items():
+            fs[loc] = dict(f) if isinstance(f, dict) else {'kind': 'text', 'items': f, 'text': '\n'.join(mc_render(f)) + '\n'}
+        return {'files': fs, 'root': {'items': root_items, 'text': '\n'.join(mc_render(root_items, True))}, 'urlFn': root_loc, 'systemPrefix': prefix,
+                'maxStatements': max_statements, 'fetch': True, 'acyclic': True}
+
+    def inc(*refs):
+        return {'inc': [[r[1:-1], True] if r.startswith('<') else [r, False] for r in refs]}
+    two = {'/r/a/lib.bare': [{'stmt': 'La-lib'}], '/r/a/sub/lib.bare': [{'stmt': 'Lsub-lib'}], 'lib.bare': [{'stmt': 'Lcwd-lib'}],
+           'http://h/p/lib.bare': [{'stmt': 'Lurl-lib'}], '/usr/lib/lib.bare': [{'stmt': 'Lsys-lib'}], '/r/b/lib.bare': [{'stmt': 'Lb-lib'}]}
+    good = [{'stmt': 'Lg1'}, inc('lib.bare'), {'stmt': 'Sg2'}, inc('<lib.bare>'), {'stmt': 'Lg3'}]
+    faults = [
+        ('missing', dict(two, **{'/r/a/sub/x.bare': [{'stmt': 'Lx'}, inc('gone.bare'), {'stmt': 'Lnever'}]})),
+        ('broken', dict(two, **{'/r/a/sub/x.bare': [{'stmt': 'Lx'}, inc('bad.bare')], '/r/a/sub/bad.bare': {'kind': 'broken', 'text': 'ok = 1\nx = 1 +\n'}})),
+        ('throws', dict(two, **{'/r/a/sub/x.bare': [{'stmt': 'Lx'}, inc('boom.bare')], '/r/a/sub/boom.bare': {'kind': 'throws', 'exc': 'OSError'}})),
+        ('budget', dict(two, **{'/r/a/sub/x.bare': [{'stmt': 'Lx'}, {'stmt': 'Lx2'}, {'stmt': 'Lx3'}, {'stmt': 'Lx4'}]})),
+        ('return', dict(two, **{'/r/a/sub/x.bare': [{'stmt': 'Lx'}, inc('lib.bare'), 'ret', {'stmt': 'Lnever'}]})),
+    ]
+    out = []
+    for name, files in faults:
+        first = case('/r/a/main.bare', '/usr/lib/', [{'stmt': 'Lf1'}, inc('sub/x.bare'), {'stmt': 'Lf2'}], files, max_statements=4 if name == 'budget' else BIG)
+        for nxt_root, nxt_prefix in (('/r/a/main.bare', '/usr/lib/'), (None, '/usr/lib/'), ('/r/b/main.bare', None), ('http://h/p/main.bare', '/usr/lib/'),
+                                     ('/r/a/main.bare', None)):
+            for style in ('minimal', 'full'):
+                for none_as in ('absent', 'none'):
+                    runs = [first, case(nxt_root, nxt_prefix, good, two), case('/r/a/main.bare', '/usr/lib/', good, two)]
+                    out.append({'kind': 'reuse', 'runs': json.loads(json.dumps(runs)), 'style': style, 'none_as': none_as, 'junk': False,
+                                'debug': False, 'strsub': False})
+    return out
+
+
+def reuse_impl(session):
+    """All runs of the session, in order, on ONE options dict. -> [observation]"""
+    m = fw.impl()
+    parser, runtime, options_mod = m['parser'], m['runtime'], m['options']
+    cur = {'files': {}, 'events': [], 'bad': []}
+
+    def fetch_fn(request):
+        if not isinstance(request, dict) or set(request) != {'url'}:
+            cur['bad'].append(repr(request))
+        url = request['url']
+        cur['events'].append(['fetch', url])
+        f = cur['files'].get(url)
+        if f is None or f['kind'] == 'missing':
+            return None
+        if f['kind'] == 'throws':
+            raise make_exc(f.get('exc', 'ValueError'))
+        return f['text']
+
+    def log_fn(text):
+        if not (session['debug'] and isinstance(text, str) and text.startswith('BareScript:')):      # the linter's lines (debug mode) are C18's business
+            cur['events'].append(['exec', text])
+
+    globals_ = dict(REUSE_JUNK) if session['junk'] else {}
+    options = {'globals': globals_, 'logFn': log_fn}
+    if session['debug']:
+        options['debug'] = True
+    wrap = _StrSub if session['strsub'] else str
+
+    def put(key, value):
+        if value is None and session['none_as'] == 'absent':
+            options.pop(key, None)
+        else:
+            options[key] = value
+    out = []
+    prev = None
+    for case in session['runs']:
+        cur['files'], cur['events'], cur['bad'] = case['files'], [], []
+        globals_['trace'] = ''
+        full = prev is None or session['style'] == 'full'
+        options['maxStatements'] = case['maxStatements']
+        if full or case['urlFn'] != prev['urlFn']:
+            put('urlFn', None if case['urlFn'] is None else functools.partial(options_mod.url_file_relative, wrap(case['urlFn'])))
+        if full or case['systemPrefix'] != prev['systemPrefix']:
+            put('systemPrefix', None if case['systemPrefix'] is None else wrap(case['systemPrefix']))
+        if full or case['fetch'] != prev['fetch']:
+            put('fetchFn', fetch_fn if case['fetch'] else None)
+        prev = case
+        kept = {k: options.get(k, '<absent>') for k in REUSE_KEPT}
+        outcome = {'kind': 'ok'}
+        try:
+            script = parser.parse_script(case['root']['text'])
+            runtime.execute_script(script, options)
+        except parser.BareScriptParserError as exc:
+            first = str(exc).partition('\n')[0]
+            if first.startswith('Included from "') and first.endswith('"'):
+                outcome = {'kind': 'parseError', 'url': first[len('Included from "'):-1]}
+            else:
+                outcome = {'kind': 'other', 'class': 'BareScriptParserError', 'msg': str(exc)}
+        except runtime.BareScriptRuntimeError as exc:
+            msg = str(exc)
+            if msg.startswith('Include of "') and msg.endswith('" failed'):
+                outcome = {'kind': 'includeFailed', 'url': msg[len('Include of "'):-len('" failed')]}
+            elif msg == f'Exceeded maximum script statements ({case["maxStatements"]})':
+                outcome = {'kind': 'exceeded'}
+            else:
+                outcome = {'kind': 'other', 'class': 'BareScriptRuntimeError', 'msg': msg}
+        except BaseException as exc:  # pylint: disable=broad-except
+            outcome = {'kind': 'other', 'class': type(exc).__name__, 'msg': str(exc)}
+        changed = sorted(k for k in REUSE_KEPT if options.get(k, '<absent>') is not kept[k])
+        out.append({'events': cur['events'], 'outcome': outcome, 'trace': globals_.get('trace'), 'statementCount': options.get('statementCount'),
+                    'changed': changed, 'bad_requests': cur['bad'][:3]})
+    return out
+
+
+def reuse_verdicts(session):
+    """-> [(expected, actual, ok?)] per run: the property for that script alone, = the same script with fresh options"""
+    out = []
+    for case, obs in zip(session['runs'], reuse_impl(session)):
+        want, ok = spec_obs(case, obs)
+        got = {'events': obs['events'], 'outcome': obs['outcome'], 'trace': obs['trace']}
+        fresh = run_impl(case)
+        if ok and any(fresh[k] != obs[k] for k in ('events', 'outcome', 'trace')):
+            want, ok = {'with fresh options': {k: fresh[k] for k in ('events', 'outcome', 'trace')}}, False
+        if ok and obs['changed']:
+            want, got, ok = 'the options the host passed are the same objects after the run', {'changed': obs['changed']}, False
+        if ok and obs['bad_requests']:
+            want, got, ok = "{'url': <resolved>}", obs['bad_requests'], False
+        out.append((want, got, ok, obs))
+    return out
+
+
+def reuse_sub(session, idxs):
+    return dict(session, runs=[session['runs'][i] for i in idxs])
+
+
+def reuse_shrink(session, k):
+    """The shortest history before run k that still makes it fail: none, one earlier run, all of them."""
+    for idxs in [[k]] + [[j, k] for j in reversed(range(k))] + [list(range(k + 1))]:
+        sub = reuse_sub(session, idxs)
+        v = reuse_verdicts(sub)
+        if not v[-1][2]:
+            return sub, v[-1]
+    return None, None
+
+
+def stream_reuse(ctx):
+    st = ctx.stream('reuse', 'sessions of 2-5 execute_script runs sharing ONE options dict and ONE globals dict (random include trees of the include '
+                             'stream: URL / path / no root location, system prefixes, missing / throwing / broken files, cycles under a budget; the '
+                             'same location names hold different texts from run to run); between runs the host changes only what differs (or '
+                             'everything), removes a key or sets it to None; a third of the runs are made to fail (fault, then continue); host '
+                             'globals named like option keys, debug mode, str subclasses for the root location and the system prefix. Oracles: '
+                             'every run = the property for that script alone = the same script with fresh options (events, outcome, trace); the '
+                             'option values the host passed are the same objects afterwards [reuse-options]. Each run is compared with the Lean '
+                             'include machine; the shared options dict / the history is host-only: implementation-side oracle. non-trivial = a '
+                             'run after the first that made at least one fetch request')
+    rng = ctx.rng('reuse')
+    sessions = [('hand', s) for s in reuse_hand()] + [('random', reuse_session(rng)) for _ in range(ctx.scale(300, 6000))]
+    resps = iter(ctx.driver.batch([model_request(c) for _, s in sessions for c in s['runs']]))
+    reported = 0
+    for origin, session in sessions:
+        verdicts = reuse_verdicts(session)
+        earlier_fault = False
+        for k, (case, (want, got, ok, obs)) in enumerate(zip(session['runs'], verdicts)):
+            resp = next(resps)
+            tags = case_tags(case, obs) + [origin, 'run:' + str(min(k, 3)) + ('+' if k >= 3 else ''), 'style:' + session['style']]
+            if earlier_fault:
+                tags.append('after-a-failed-run')
+            if k and case['urlFn'] == session['runs'][k - 1]['urlFn']:
+                tags.append('urlFn-untouched-by-host')
+            if k and case['urlFn'] is None and session['runs'][k - 1]['urlFn'] is not None:
+                tags.append('located-then-unlocated')
+            tags += [t for t in ('junk', 'debug', 'strsub') if session[t]]
+            st.case({'session': id_of(session), 'run': k, 'root': case['root']['text'], 'urlFn': case['urlFn'], 'prefix': case['systemPrefix']},
+                    nontrivial=k > 0 and any(e[0] == 'fetch' for e in obs['events']), tags=tags)
+            ctx.compare('reuse', {'run': k, 'case': case}, {x: obs[x] for x in ('events', 'outcome', 'trace', 'statementCount')}, model_obs(resp))
+            if obs['outcome']['kind'] != 'ok':
+                earlier_fault = True
+            if not ok and reported < 10:
+                reported += 1
+                sub, v = reuse_shrink(session, k)
+                if sub is None:
+                    sub, v = reuse_sub(session, list(range(k + 1))), (want, got, ok, obs)
+                ctx.witness('reuse-options', sub, v[0], v[1])
+
+
+def id_of(session):
+    """a short deterministic name of a session for the coverage record"""
+    return [session['style'], session['none_as'], len(session['runs']), session['runs'][0]['root']['text'][:60]]
+
+
+# ---------------------------------------------------------------------------------------------------------------------
 
 def streams(ctx):
     url_pairs, inc_cases = load_corpus()
-    stream_url(ctx, url_pairs)
-    stream_include(ctx, inc_cases)
-    stream_reexec(ctx)
-    stream_cli(ctx)
-    ctx.witnesses.sort(key=lambda w: len(json.dumps(w, default=str)))
+    for fn, args in ((stream_url, (url_pairs,)), (stream_include, (inc_cases,)), (stream_reexec, ()), (stream_reuse, ()), (stream_cli, ()),
+                     (stream_mcli, ())):
+        t0 = ctx.elapsed()
+        fn(ctx, *args)
+        if os.environ.get('VERIF_C17_TIMING'):
+            print(f'C17 {fn.__name__}: {ctx.elapsed() - t0:.1f}s', file=sys.stderr)
+    # the smallest witness first; one whose history could not be recorded (it will not fail when replayed alone) last
+    ctx.witnesses.sort(key=lambda w: (isinstance(w['input'], dict) and 'not recorded' in str(w['input'].get('history', '')),
+                                      len(json.dumps(w, default=str))))
 
 
 def search(ctx):
@@ -1442,6 +2294,12 @@ def search(ctx):
         if not ok:
             ctx.witness('include-reexec', case, exp, got)
             return
+    for session in reuse_hand() + [reuse_session(rng) for _ in range(ctx.scale(2000, 20000))]:
+        for k, v in enumerate(reuse_verdicts(session)):
+            if not v[2]:
+                sub, v2 = reuse_shrink(session, k)
+                ctx.witness('reuse-options', sub or session, (v2 or v)[0], (v2 or v)[1])
+                return
 
 
 def replay(witness):
@@ -1456,6 +2314,10 @@ def replay(witness):
         return _replay_cli(inp, witness)
     if oracle == 'include-reexec':
         return not rx_verdict(inp)[2]
+    if oracle in ('cli-multi', 'cli-fresh-process'):
+        return _replay_mcli(inp, oracle)
+    if oracle == 'reuse-options':
+        return any(not v[2] for v in reuse_verdicts(inp))
     impl = run_impl(inp)
     if oracle == 'include-tree':
         _, ok = spec_obs(inp, impl)
